@@ -46,6 +46,13 @@ MUTATORS = {"append", "extend", "insert", "pop", "popitem", "clear", "update", "
 
 MEMO_DECOS = {"lru_cache", "cache", "cached_property"}
 
+# calls that change state of the PROCESS every thread sees (saved / changed / restored around a block or set for good)
+PROCESS_GLOBAL_CALLS = {"warnings.catch_warnings", "warnings.simplefilter", "warnings.filterwarnings", "warnings.resetwarnings",
+                        "os.chdir", "os.umask", "os.putenv", "os.unsetenv", "locale.setlocale", "sys.setrecursionlimit",
+                        "sys.setswitchinterval", "np.seterr", "numpy.seterr", "np.seterrcall", "pd.set_option", "pandas.set_option",
+                        "pd.option_context", "pandas.option_context", "np.random.seed", "numpy.random.seed", "random.seed",
+                        "np.set_printoptions", "gc.disable", "gc.enable", "signal.signal", "faulthandler.enable"}
+
 PATTERNS = ["check_then_act", "idem_store", "augmented", "rmw", "set_restore", "multi_store", "delete", "mutcall", "plain"]
 BASES = ["self", "global", "default", "classattr", "param", "fresh", "local"]
 LKINDS = ["module_global", "class_attr", "default_arg", "global_stmt", "memo_decorator", "func_attr", "closure_cell"]
@@ -556,6 +563,11 @@ class ModuleScan(ast.NodeVisitor):
                                           "pattern": {"setdefault": "check_then_act", "add": "idem_store"}.get(f.attr, "mutcall"),
                                           "guard_line": None, "detail": f.attr,
                                           "key": (n.args[0].value if n.args and isinstance(n.args[0], ast.Constant) and isinstance(n.args[0].value, str) else None)})
+                    if cname in PROCESS_GLOBAL_CALLS:
+                        sites.append({"module": self.module, "file": self.module + ".py", "func": fi.qual, "line": n.lineno,
+                                      "end_line": getattr(st, "end_lineno", n.lineno), "base": "global", "base_name": "process:" + cname,
+                                      "target": cname, "pattern": "set_restore" if cname.endswith(("catch_warnings", "option_context")) else "mutcall",
+                                      "guard_line": None, "detail": cname})
                     if isinstance(f, ast.Name) and f.id in ("setattr", "delattr") and n.args:
                         b = base_of_expr(n.args[0])
                         key = unparse(n.args[1]) if len(n.args) > 1 else "?"
